@@ -31,7 +31,7 @@ THEOREMS = ['Scalibr.Overlay.C04_view_partial', 'Scalibr.Overlay.C04_loader_view
             'Scalibr.Overlay.C04_view_fails_recreate', 'Scalibr.Overlay.C04_view_fails_opaque', 'Scalibr.Overlay.C04_view_fails_dropped_entry',
             'Scalibr.Overlay.C04_view_fails_wh_recreate', 'Scalibr.Overlay.C04_view_fails_implicit_dir',
             'Scalibr.Overlay.C04_view_fails_duplicate', 'Scalibr.Overlay.C04_duplicate_first_wins_witness',
-            'Scalibr.Overlay.C04_view_fails_rejected', 'Scalibr.Overlay.C04_view_rejected_partial',
+            'Scalibr.Overlay.C04_view_rejected_fixed', 'Scalibr.Overlay.C04_view_rejected_partial', 'Scalibr.Overlay.specEffective_eq',
             'Scalibr.Overlay.C04_witness_classes', 'Scalibr.Overlay.view_gen', 'Scalibr.Overlay.revLayer_apply', 'Scalibr.Overlay.loadCore_eq_viewOf',
             'Scalibr.Overlay.C10_layer_bytes', 'Scalibr.Overlay.C10_layer_bytes_loader', 'Scalibr.Overlay.C10_layer_bytes_final',
             'Scalibr.Overlay.C10_layer_bytes_boundary', 'Scalibr.Overlay.C10_disk_bytes', 'Scalibr.Overlay.C10_disk_bytes_load',
